@@ -130,6 +130,43 @@ def bank_oracle(banks, cycles):
 
 
 # ------------------------------------------------------------------ C04: register file
+
+def decoy_banks(rng, exclude="P"):
+    """Register banks named with the textbook stage letters (F D E M W ...) whose stall / bubble are
+    driven by bits of the fetched instruction: none of the built-in components may care."""
+    st = []
+    letters = [c for c in "FDEMW" if c not in exclude]
+    if rng.random() < 0.5:
+        return st
+    for lo in rng.sample(letters, rng.randint(1, len(letters))):
+        li = lo.lower() if lo != "D" else "f"          # fD dE eM mW style names
+        li = {"F": "f", "D": "f", "E": "d", "M": "e", "W": "m"}[lo]
+        n = "dk%s" % lo
+        st.append("register %s%s { %s : 8 = 0; }" % (li, lo, n))
+        st.append("%s_%s = %s_%s + 1;" % (li, n, lo, n))
+        b = rng.randint(0, 70)
+        if rng.random() < 0.8:
+            st.append("stall_%s = (i10bytes)[%d..%d];" % (lo, b, b + 1))
+        if rng.random() < 0.6:
+            st.append("bubble_%s = (i10bytes)[%d..%d] & (i10bytes)[%d..%d];" % (lo, b + 3, b + 4, b + 5, b + 6))
+    # two banks may not share an input letter: keep the first of each
+    seen, out = set(), []
+    for l in st:
+        if l.startswith("register "):
+            key = l.split()[1][0]
+            if key in seen:
+                skip = l.split()[1][1]
+                out = [x for x in out]
+                continue_bank = skip
+                seen.add("skip" + skip)
+                continue
+            seen.add(key)
+        out.append(l)
+    skipped = [k[4:] for k in seen if k.startswith("skip")]
+    out = [l for l in out if not any(("_dk%s" % x) in l or l.startswith(("stall_%s" % x, "bubble_%s" % x)) for x in skipped)]
+    return out
+
+
 def regfile_program(rng):
     st = ["register pP { pc : 64 = 0; }", "p_pc = P_pc + 10;", "pc = P_pc;", stat_stmt(rng, "(i10bytes)[72..76]")]
     small = rng.random() < 0.6      # few registers in play: many collisions
@@ -148,6 +185,7 @@ def regfile_program(rng):
     st.append("reg_inputM = (0b01001101 .. (i10bytes)[20..76]);")
     st.append("wire seenA : 64; seenA = reg_outputA;")
     st.append("wire seenB : 64; seenB = reg_outputB;")
+    st += decoy_banks(rng)
     rng.shuffle(st)
     return "\n".join(st) + "\n"
 
@@ -200,6 +238,7 @@ def mem_program(rng):
           "mem_writebit = (i10bytes)[7..8] | (i10bytes)[10..11];",
           "mem_input = (i10bytes)[16..80];",
           "wire seen : 64; seen = mem_output;"]
+    st += decoy_banks(rng)
     rng.shuffle(st)
     return "\n".join(st) + "\n"
 
